@@ -17,7 +17,9 @@ EXPLANATION = (
     "producer, lookup and mutator is evaluated on every ordered duplicate-free list (pair of lists) over the alphabet and "
     "compared with the ordered-list model; heap identities decide that results share no list with receiver/argument and "
     "that a rejected mutation changes nothing. Letters are atoms compared only by equality, so k letters cover every "
-    "equality pattern of sets with <= k distinct letters. Exhaustive within the alphabet bound.")
+    "equality pattern of sets with <= k distinct letters. Exhaustive within the alphabet bound. "
+    "Also: the right operand holding its own (shorter) Dimension objects for shared letters, lists whose clashing element comes last, "
+    "replace by a name that contains another dimension's letter, every lookup style exercised on the operands beforehand.")
 
 MOD = "dimensions.py"
 
